@@ -211,6 +211,35 @@ def _case(case):
             viol("hash-representation", case["group"],
                  f"representations hash differently: {hs}")
         return out, ("repr", len(hs))
+    if kind == "refit-params":
+        # initial parameters taken over from an earlier fit carry result
+        # bookkeeping (stderr, correl, init_value); a set rebuilt from
+        # scratch with the same name/value/min/max/vary/expr is the same
+        # setting
+        import copy
+        import lmfit
+        c = fresh()
+        c.fit_model(model_key=case["model"])
+        P2 = copy.deepcopy(c.fit_properties["params_fitted"])
+        P3 = lmfit.Parameters()
+        for n_, p_ in P2.items():
+            P3.add(n_, value=float(p_.value), min=p_.min, max=p_.max,
+                   vary=p_.vary, expr=p_.expr)
+        P4 = copy.deepcopy(P3)
+        for p_ in P4.values():
+            p_.stderr = 0.123
+            p_.user_data = {"note": "x"}
+        s0 = {"model_key": case["model"]}
+        hs = {"taken over from a fit": the_hash(
+                  fresh(), dict(s0, params_initial=P2)),
+              "rebuilt": the_hash(fresh(), dict(s0, params_initial=P3)),
+              "rebuilt + stderr/user_data set by hand": the_hash(
+                  fresh(), dict(s0, params_initial=P4))}
+        if len(set(hs.values())) != 1:
+            viol("hash-unequal", case["model"], "initial parameters with "
+                 "equal name/value/min/max/vary/expr hash differently: "
+                 f"{hs}")
+        return out, ("refit-params",)
     if kind == "entry":
         # the same fit requested in different ways: equal data and equal
         # *effective* settings (the initial parameters that are estimated
@@ -327,6 +356,8 @@ def grid_cases():
         for lo in range(0, 240, 20):
             cases.append({"kind": "sample", "col": col,
                           "indices": list(range(lo, lo + 20))})
+    for mk in ("hertz_para", "hertz_cone", "sneddon_spher_approx"):
+        cases.append({"kind": "refit-params", "model": mk})
     for base in BASES:
         for mk in ("hertz_para", "hertz_cone", "sneddon_spher_approx"):
             cases.append({"kind": "entry", "base": base, "model": mk})
